@@ -16,6 +16,7 @@
 package function
 
 import (
+	"cmp"
 	"context"
 	"errors"
 	"fmt"
@@ -23,6 +24,7 @@ import (
 	"go/types"
 	"reflect"
 	"runtime/debug"
+	"slices"
 	"strings"
 	"sync"
 
@@ -273,73 +275,57 @@ func duplicateFullTriggersFromContractedFunctionsToCallers(
 	funcResults map[*types.Func]*functionResult,
 ) {
 
-	// Find all the calls to contracted functions
-	// callsByCtrtFunc is a mapping: contracted function -> caller -> all the call expressions
-	callsByCtrtFunc := map[*types.Func]map[*types.Func][]*ast.CallExpr{}
-	for funcObj, r := range funcResults {
-		for ctrFunc, calls := range findCallsToContractedFunctions(r.funcDecl, pass, funcContracts) {
-			for _, call := range calls {
-				// TODO: Ideally, we should do
-				//
-				// if _, ok := callsByCtrtFunc[ctrFunc]; !ok {
-				//  callsByCtrtFunc[ctrFunc] = map[*types.Func][]*ast.CallExpr{}
-				// }
-				// callsByCtrtFunc[ctrFunc][funcObj] = append(callsByCtrtFunc[ctrFunc][funcObj], call)
-				//
-				// However, NilAway complains that callsByCtrtFunc[ctrFunc] can be nil. Thus, we
-				// introduce an intermediate variable v and the following instead.
-				v, ok := callsByCtrtFunc[ctrFunc]
-				if !ok {
-					v = map[*types.Func][]*ast.CallExpr{}
-					callsByCtrtFunc[ctrFunc] = v
-				}
-				v[funcObj] = append(v[funcObj], call)
-			}
-		}
+	// Go maps are iterated in random order, while the order of the generated triggers is
+	// observable (in the reported flows and in the exported facts). Therefore, we visit the
+	// callers in the order of their declarations, the contracted functions called by a caller in
+	// the order of their first calls, and the calls to a contracted function in source order.
+	callers := make([]*functionResult, 0, len(funcResults))
+	for _, r := range funcResults {
+		callers = append(callers, r)
 	}
+	slices.SortFunc(callers, func(a, b *functionResult) int { return cmp.Compare(a.index, b.index) })
 
-	// For every contracted function, duplicate some of its full triggers (that involves param or
-	// return) into all the callers
-	dupTriggers := map[*types.Func][]annotation.FullTrigger{}
-	for ctrtFunc, calls := range callsByCtrtFunc {
-		r := funcResults[ctrtFunc]
-		if r == nil {
-			// The contracted function is imported from upstream, and the local package analysis
-			// does not involve it.
-			continue
+	for _, caller := range callers {
+		callsByCtrtFunc := findCallsToContractedFunctions(caller.funcDecl, pass, funcContracts)
+		ctrtFuncs := make([]*types.Func, 0, len(callsByCtrtFunc))
+		for ctrtFunc := range callsByCtrtFunc {
+			ctrtFuncs = append(ctrtFuncs, ctrtFunc)
 		}
-		for _, trigger := range r.triggers {
-			// If the full trigger has a FuncParam producer or a UseAsReturn consumer, then create
-			// a duplicated (possibly controlled) full trigger from it and add the created full
-			// trigger to every caller.
-			_, isParamProducer := trigger.Producer.Annotation.(*annotation.FuncParam)
-			_, isReturnConsumer := trigger.Consumer.Annotation.(*annotation.UseAsReturn)
-			if !isParamProducer && !isReturnConsumer {
-				// No need to duplicate the full trigger
+		slices.SortFunc(ctrtFuncs, func(a, b *types.Func) int {
+			return cmp.Compare(callsByCtrtFunc[a][0].Pos(), callsByCtrtFunc[b][0].Pos())
+		})
+
+		// For every contracted function, duplicate some of its full triggers (that involves param
+		// or return) into the caller.
+		var dupTriggers []annotation.FullTrigger
+		for _, ctrtFunc := range ctrtFuncs {
+			r := funcResults[ctrtFunc]
+			if r == nil {
+				// The contracted function is imported from upstream, and the local package analysis
+				// does not involve it.
 				continue
 			}
-			// Duplicate the full trigger in every caller
-			for caller, callExprs := range calls {
-				for _, callExpr := range callExprs {
-					dupTrigger := duplicateFullTrigger(trigger, ctrtFunc, callExpr, pass,
-						isParamProducer, isReturnConsumer)
-
-					// Store the duplicated full trigger
-					dupTriggers[caller] = append(dupTriggers[caller], dupTrigger)
+			for _, trigger := range r.triggers {
+				// If the full trigger has a FuncParam producer or a UseAsReturn consumer, then create
+				// a duplicated (possibly controlled) full trigger from it and add the created full
+				// trigger to the caller.
+				_, isParamProducer := trigger.Producer.Annotation.(*annotation.FuncParam)
+				_, isReturnConsumer := trigger.Consumer.Annotation.(*annotation.UseAsReturn)
+				if !isParamProducer && !isReturnConsumer {
+					// No need to duplicate the full trigger
+					continue
+				}
+				for _, callExpr := range callsByCtrtFunc[ctrtFunc] {
+					dupTriggers = append(dupTriggers, duplicateFullTrigger(trigger, ctrtFunc, callExpr, pass,
+						isParamProducer, isReturnConsumer))
 				}
 			}
 		}
-	}
 
-	// Update funcTriggers with duplicated triggers
-	for funcObj, triggers := range dupTriggers {
-		r := funcResults[funcObj]
-		if r == nil {
-			// Should not happen since we would not have created the duplicated triggers if the
-			// contracted function is not involved in the analysis of local package.
-			panic(fmt.Sprintf("did not find the contracted function %s in funcResults", funcObj.Id()))
-		}
-		funcTriggers[r.index] = append(funcTriggers[r.index], triggers...)
+		// Update funcTriggers with duplicated triggers. Note that the triggers of the contracted
+		// functions are read from funcResults (the original triggers), so the duplicated
+		// triggers are never duplicated again.
+		funcTriggers[caller.index] = append(funcTriggers[caller.index], dupTriggers...)
 	}
 }
 
